@@ -12,11 +12,13 @@
 package vk
 
 import (
+	"context"
 	"encoding/json"
 	"flag"
 	"fmt"
 	"hash/fnv"
 	"os"
+	"os/exec"
 	"path/filepath"
 	"runtime/debug"
 	"sort"
@@ -269,6 +271,9 @@ func Main(m *testing.M, c Config) {
 		Excluded: map[string]int64{}, Exhaustive: map[string]bool{}}
 	debug.SetTraceback("all")
 
+	if IsChild() {
+		os.Exit(m.Run())
+	}
 	for _, p := range c.Probes {
 		runProbe(p)
 	}
@@ -735,3 +740,23 @@ func AddLabel(l string, n int64) {
 	part.Labels[l] += n
 	mu.Unlock()
 }
+
+// RunChild re-runs this test binary with -test.run ^name$ in a child process
+// (env VERIF_CHILD=1) and reports whether it exited cleanly. It is meant for
+// pinned reproductions whose failure mode is a crash of a background goroutine,
+// which would otherwise take the whole check down.
+func RunChild(name string, timeout time.Duration) (ok bool, output string) {
+	ctx, cancel := context.WithTimeout(context.Background(), timeout)
+	defer cancel()
+	cmd := exec.CommandContext(ctx, os.Args[0], "-test.run", "^"+name+"$", "-test.count", "1")
+	cmd.Env = append(os.Environ(), "VERIF_CHILD=1", "VERIF_PART_OUT=")
+	out, err := cmd.CombinedOutput()
+	s := string(out)
+	if len(s) > 400 {
+		s = s[:400] + "…"
+	}
+	return err == nil, s
+}
+
+// IsChild reports whether this process was started by RunChild.
+func IsChild() bool { return os.Getenv("VERIF_CHILD") != "" }
